@@ -1158,6 +1158,42 @@ func runC20(ctx *Ctx) error {
 		}
 		jobs = append(jobs, job{i, doc, c, fl, mode, r.Fork()})
 	}
+	// no package name anywhere (it is derived from the name of the specification file) and a configuration file that says
+	// nothing (comments only): the code is the one an explicit package name gives, and only the code goes to stdout
+	{
+		d := env.tmp()
+		doc0, _ := genSpec(ctx.Rng.Fork(), SpecOpts{Small: true})
+		_ = os.WriteFile(filepath.Join(d, "petShop.json"), []byte(Canon(doc0)), 0o644)
+		_ = os.WriteFile(filepath.Join(d, "empty.yaml"), []byte("# nothing configured here\n\n"), 0o644)
+		_ = os.WriteFile(filepath.Join(d, "none.yaml"), []byte(""), 0o644)
+		_ = os.WriteFile(filepath.Join(d, "pkg.yaml"), []byte("package: petShop\n"), 0o644)
+		explicitFlags := c20Exec(bin, d, "-package", "petShop", "petShop.json")
+		explicitFile := c20Exec(bin, d, "-config", "pkg.yaml", "petShop.json") // a new-style file has defaults of its own
+		for _, v := range []struct {
+			name string
+			args []string
+			file bool
+		}{{"no-package", []string{"petShop.json"}, false}, {"comment-only-config", []string{"-config", "empty.yaml", "-package", "petShop", "petShop.json"}, true},
+			{"zero-byte-config", []string{"-config", "none.yaml", "-package", "petShop", "petShop.json"}, true}, {"comment-only-config-no-package", []string{"-config", "empty.yaml", "petShop.json"}, true}} {
+			explicit := explicitFlags
+			if v.file {
+				explicit = explicitFile
+			}
+			run := c20Exec(bin, d, v.args...)
+			ctx.Res.Eval(J{"defaults": v.name}, true)
+			ctx.Res.Count("defaults:" + v.name)
+			replay := J{"doc": doc0, "args": v.args, "explicit": []string{"-package", "petShop", "petShop.json"}}
+			if explicit.Exit != 0 {
+				break // the defaults themselves do not generate this document: nothing to compare with
+			}
+			if run.Exit != 0 {
+				ctx.Res.Violate("defaults:"+v.name+":rejected", fmt.Sprintf("the tool rejects %v (exit %d: %s) although it says the same as -package petShop", v.args, run.Exit, firstLine(strings.TrimSpace(run.Stderr))), replay)
+			} else if c20Mask(run.Stdout) != c20Mask(explicit.Stdout) {
+				ctx.Res.Violate("defaults:"+v.name+":differs", fmt.Sprintf("stdout of %v differs from stdout with the package name given: %s", v.args, firstDiff(c17Outcome{Out: c20Mask(run.Stdout)}, c17Outcome{Out: c20Mask(explicit.Stdout)})), replay)
+			}
+		}
+		os.RemoveAll(d)
+	}
 	var mu sync.Mutex
 	parallelDo(len(jobs), func(k int) {
 		j := jobs[k]
